@@ -69,6 +69,20 @@ func typedSort(c M, ty string, out *Out) {
 		typedSortT(c, out, func(v int) int8 { return int8(v - 128) }, func(x int8) int { return int(x) + 128 })
 	case "uint8":
 		typedSortT(c, out, func(v int) uint8 { return uint8(v) }, func(x uint8) int { return int(x) })
+	case "nulstr": // strings that differ only by trailing NUL bytes: id 4p+k = prefix p followed by k NULs (monotone in id)
+		pre := []string{"a", "ab", "name", "namf", "z"}
+		typedSortT(c, out, func(v int) string { return pre[(v/4)%5] + "\x00\x00\x00"[:v%4] }, func(x string) int {
+			k := 0
+			for len(x) > 0 && x[len(x)-1] == 0 {
+				x, k = x[:len(x)-1], k+1
+			}
+			for p, q := range pre {
+				if q == x {
+					return 4*p + k
+				}
+			}
+			return -1
+		})
 	case "float64":
 		typedSortT(c, out, func(v int) float64 { return float64(v)/4 - 10 }, func(x float64) int { return int((x + 10) * 4) })
 	default:
